@@ -1,4 +1,197 @@
-import DisjointImpls.Canon
+/-
+  C13 — parameter canonicalisation (`param.rs`, model `Canon.lean`): property theorems.
+  Proofs are in `Lemmas/CanonLemmas.lean` (which uses `Nat.repr_injective` from Std through `Lemmas/Names.lean`).
+
+  Indexer: every traversal (`ixT`, `ixL`, `ixRound`, `ixLoop`, `indexImpl`) is a composition of the primitive
+  steps `ltIdent` / `tyIdent` / `coIdent` (`IxRel`, `ixT_rel` …), so anything the primitive steps preserve is
+  preserved. `IxInv s`: the indices handed out are exactly `0 … next-1`, each once, across the three kinds
+  (`IdxInv`), and per kind no name occurs twice among the indexed and the not yet indexed parameters.
+  Resolver: `rsT` rewrites lifetimes and the first segment of type / expression paths only.
+-/
+import DisjointImpls.Lemmas.CanonLemmas
 namespace DI
-theorem C13_placeholder : (1 : Nat) = 1 := rfl
+
+/-! ## The indexer -/
+
+theorem C13_ix_preserves (s : IxState) (t : T) : IxInv s → IxInv (ixT s t) := ixT_rel ixInv_rel t s
+theorem C13_ixL_preserves (s : IxState) (ts : List T) : IxInv s → IxInv (ixL s ts) :=
+  ixL_rel ixInv_rel ts (fun t _ => ixT_rel ixInv_rel t) s
+theorem C13_ixRound_preserves (s : IxState) (g : T) : IxInv s → IxInv (ixRound s g) := ixRound_rel ixInv_rel s g
+theorem C13_ixLoop_preserves (fuel prev : Nat) (s : IxState) (g : T) : IxInv s → IxInv (ixLoop fuel prev s g) :=
+  ixLoop_rel ixInv_rel fuel prev s g
+
+/-- the declared parameter names of an impl, per kind (what the indexer starts from) -/
+def declaredLt (item : T) : List String := (ixInit item).unLt
+def declaredTy (item : T) : List String := (ixInit item).unTy
+def declaredCo (item : T) : List String := (ixInit item).unCo
+
+/-- the invariant holds after indexing an impl whose declared names are distinct per kind -/
+theorem C13_indexImpl_inv (item : T) (hlt : (declaredLt item).Nodup) (hty : (declaredTy item).Nodup)
+    (hco : (declaredCo item).Nodup) : IxInv (indexImpl item) :=
+  indexImpl_inv item hlt hty hco
+
+/-- the indices are exactly `0 … next-1`, each used once — no hypothesis needed -/
+theorem C13_indices_exact (item : T) :
+    (indexImpl item).idxs.Nodup ∧ (∀ i, i ∈ (indexImpl item).idxs ↔ i < (indexImpl item).next) ∧
+    (indexImpl item).idxs.length = (indexImpl item).next :=
+  indexImpl_idxInv item
+
+/-- distinct parameters receive distinct canonical names, and the names used are exactly
+    `_ŠČ0 … _ŠČ(next-1)`: the new names are the images of the indices under the injective `genIndexedIdent` -/
+theorem C13_injective (item : T) :
+    let s := indexImpl item
+    let r := s.renaming
+    ((r.lt ++ r.ty ++ r.co).map Prod.snd).Nodup ∧
+    (∀ x, x ∈ (r.lt ++ r.ty ++ r.co).map Prod.snd ↔ ∃ i, i < s.next ∧ x = genIndexedIdent i) ∧
+    (∀ i j, genIndexedIdent i = genIndexedIdent j → i = j) := by
+  intro s r
+  obtain ⟨h1, h2, _⟩ := indexImpl_idxInv item
+  have hr : (r.lt ++ r.ty ++ r.co).map Prod.snd = s.idxs.map genIndexedIdent := renaming_new_names s
+  refine ⟨?_, ?_, fun i j => genIndexedIdent_inj⟩
+  · rw [hr]
+    exact List.Pairwise.map genIndexedIdent (fun a b hab e => hab (genIndexedIdent_inj e)) h1
+  · intro x
+    rw [hr, List.mem_map]
+    constructor
+    · rintro ⟨i, hi, rfl⟩; exact ⟨i, (h2 i).1 hi, rfl⟩
+    · rintro ⟨i, hi, rfl⟩; exact ⟨i, (h2 i).2 hi, rfl⟩
+
+/-- only declared parameters are ever indexed: per kind, the indexed names together with the not yet indexed
+    ones are a rearrangement of the declared names (so nothing is invented, nothing is lost) -/
+theorem C13_indexed_are_declared (item : T) :
+    let s := indexImpl item
+    (s.ixLt.map Prod.fst ++ s.unLt).Perm (declaredLt item) ∧
+    (s.ixTy.map Prod.fst ++ s.unTy).Perm (declaredTy item) ∧
+    (s.ixCo.map Prod.fst ++ s.unCo).Perm (declaredCo item) := by
+  have := indexImpl_rel sameNames_rel item
+  simpa [SameNames, IxState.namesLt, IxState.namesTy, IxState.namesCo, ixInit, declaredLt, declaredTy,
+    declaredCo] using this
+
+/-- … and each at most once: with distinct declared names, no name is indexed twice and no indexed name is
+    still waiting -/
+theorem C13_indexed_once (item : T) (hty : (declaredTy item).Nodup) :
+    ((indexImpl item).ixTy.map Prod.fst).Nodup ∧
+    (∀ x ∈ (indexImpl item).ixTy.map Prod.fst, x ∈ declaredTy item ∧ x ∉ (indexImpl item).unTy) := by
+  have hp := (C13_indexed_are_declared item).2.1
+  have hn := hp.nodup_iff.2 hty
+  rw [List.nodup_append] at hn
+  refine ⟨hn.1, fun x hx => ⟨hp.mem_iff.1 (List.mem_append.2 (Or.inl hx)), fun hu => hn.2.2 x hx x hu rfl⟩⟩
+
+/-! ## The resolver -/
+
+/-- node kinds other than `Type::Path` / `Expr::Path` are kept, the node is rebuilt around its rewritten
+    children (`Ign`, `Eq` leaves and well-formed `Lifetime` nodes have their own statements below) -/
+theorem C13_rs_kind_preserved (r : Renaming) (k : String) (as : List String) (ks : List T)
+    (h1 : k ≠ "Ign") (h2 : k ≠ "Eq") (h3 : k ≠ "Lifetime") (h4 : k ≠ "Type::Path") (h5 : k ≠ "Expr::Path") :
+    rsT r (.node k as ks) = .node k as (rsL r ks) :=
+  rsT_other r as ks h1 h2 h3 h4 h5
+
+/-- ignored children and verbatim leaves are never touched -/
+theorem C13_rs_ign (r : Renaming) (as : List String) (ks : List T) :
+    rsT r (.node "Ign" as ks) = .node "Ign" as ks ∧ rsT r (.node "Eq" as ks) = .node "Eq" as ks :=
+  ⟨rsT_ign r as ks, rsT_eq r as ks⟩
+
+/-- an identifier leaf (trait names in bounds, path tails, fields, methods, declared names) is never rewritten
+    by the resolver -/
+theorem C13_rs_ident (r : Renaming) (x : String) : rsT r (.node "Ident" [x] []) = .node "Ident" [x] [] := by
+  rw [rsT_other r _ _ (by decide) (by decide) (by decide) (by decide) (by decide), rsL]
+
+/-- lifetimes are renamed by the lifetime map only -/
+theorem C13_rs_lifetime (r : Renaming) (as : List String) (x : String) :
+    rsT r (.node "Lifetime" as [.node "Ident" [x] []]) =
+      .node "Lifetime" as [.node "Ident" [(rlookup r.lt x).getD x] []] := rsT_lifetime r as x
+
+/-- with the empty renaming nothing changes -/
+theorem C13_rs_empty (t : T) : rsT ⟨[], [], []⟩ t = t := rsT_empty t
+
+/-- the renaming is simultaneous (capture-free): a parameter occurrence is looked up once in the *old* names;
+    the name produced is not looked up again -/
+theorem C13_rs_simultaneous (r : Renaming) (n : String) :
+    rsT r (.tparam n) = .tparam ((rlookup r.ty n).getD n) ∧
+    rsT r (.eparam n) = .eparam (((rlookup r.ty n).or (rlookup r.co n)).getD n) :=
+  ⟨rsT_tparam r n, rsT_eparam r n⟩
+
+/-- an identity renaming changes nothing on a tree without a path that starts with a renamed name -/
+theorem C13_rs_identity (r : Renaming) (hid : r.isId = true) (t : T) (hs : rsStable r t = true) : rsT r t = t :=
+  rsT_id r hid t hs
+
+/-- idempotence on canonical input: if the declared names are already the canonical ones in first-occurrence
+    order (the computed renaming is the identity) and no path starts with one of them, nothing changes -/
+theorem C13_canon_fixed (item : T) (h : alreadyCanonical item = true) : canon item = item := canon_fixed item h
+
+/-! ## Closed examples -/
+
+namespace Ex13
+def leaf (s : String) : T := .node s [] []
+def attrs : T := .node "Ign" [] [.node "List" [] []]
+def seg (x : String) : T := .node "PathSegment" [] [.node "Ident" [x] [], leaf "PathArguments::None"]
+def path (segs : List T) : T := .node "Path" [] [.node "IgnL" [] [leaf "None"], .node "List" [] segs]
+def tyPath (segs : List T) : T := .node "Type::Path" [] [leaf "None", path segs]
+def tyParam (x : String) (bounds : List T) : T :=
+  .node "GenericParam::Type" [] [.node "TypeParam" [] [attrs, .node "Ident" [x] [], leaf "None",
+    .node "List" [] bounds, leaf "None", leaf "None"]]
+def traitBound (p : T) : T :=
+  .node "TypeParamBound::Trait" [] [.node "TraitBound" [] [leaf "None", leaf "TraitBoundModifier::None", leaf "None", p]]
+/-- `name<arg>` as a path -/
+def trWith (name : String) (arg : T) : T :=
+  path [.node "PathSegment" [] [.node "Ident" [name] [], .node "PathArguments::AngleBracketed" [] [.node "Ign" [] [leaf "None"],
+    .node "List" [] [.node "GenericArgument::Type" [] [arg]]]]]
+def implOf (params : List T) (self : T) : T :=
+  .node "ItemImpl" [] [attrs, leaf "None", leaf "None",
+    .node "Generics" [] [leaf "Some", .node "List" [] params, leaf "Some", leaf "None"],
+    .node "Some" [] [.node "Tuple" [] [leaf "None", path [seg "Kita"]]], self, .node "List" [] []]
+def tuple (ts : List T) : T := .node "Type::Tuple" [] [.node "List" [] ts]
+
+/-- `impl<_ŠČ1: Tr<_ŠČ0>, _ŠČ0> Kita for (_ŠČ1, _ŠČ0) {}`: the two reserved names in the "wrong" order -/
+def swapped : T :=
+  implOf [tyParam "_ŠČ1" [traitBound (trWith "Tr" (.tparam "_ŠČ0"))], tyParam "_ŠČ0" []] (tuple [.tparam "_ŠČ1", .tparam "_ŠČ0"])
+def swappedCanon : T :=
+  implOf [tyParam "_ŠČ0" [traitBound (trWith "Tr" (.tparam "_ŠČ1"))], tyParam "_ŠČ1" []] (tuple [.tparam "_ŠČ0", .tparam "_ŠČ1"])
+
+/-- `impl<U, T: Tr<U>> Kita for (T, T::Target) {}`: user names, `U` reached only through the bound of `T`,
+    a multi-segment path -/
+def named : T :=
+  implOf [tyParam "U" [], tyParam "T" [traitBound (trWith "Tr" (tyPath [seg "U"]))]]
+    (tuple [tyPath [seg "T"], tyPath [seg "T", seg "Target"]])
+def namedCanon : T :=
+  implOf [tyParam "_ŠČ1" [], tyParam "_ŠČ0" [traitBound (trWith "Tr" (.tparam "_ŠČ1"))]]
+    (tuple [.tparam "_ŠČ0", .node "Type::Path" [] [.node "Some" [] [.node "QSelf" [] [.tparam "_ŠČ0", .node "Atom" ["0"] [], leaf "None"]],
+      .node "Path" [] [.node "IgnL" [] [.node "Some" ["PathSep"] []], .node "List" [] [seg "Target"]]]])
+end Ex13
+
+section Examples
+open Ex13
+set_option maxRecDepth 100000
+
+/-- swapping two reserved names works: header, bound and declarations are renamed consistently in one pass -/
+theorem C13_swap_example :
+    (indexImpl swapped).renaming = ⟨[], [("_ŠČ1", "_ŠČ0"), ("_ŠČ0", "_ŠČ1")], []⟩ ∧ canon swapped = swappedCanon := by
+  with_unfolding_all decide
+
+/-- user names; a parameter first seen in a bound is numbered after those of the header; `T::Target` becomes
+    `<_ŠČ0>::Target` -/
+theorem C13_named_example :
+    (indexImpl named).renaming = ⟨[], [("T", "_ŠČ0"), ("U", "_ŠČ1")], []⟩ ∧ canon named = namedCanon := by
+  with_unfolding_all decide
+
+/-- idempotence on the examples, and non-vacuity of `C13_canon_fixed` -/
+theorem C13_idempotent_examples :
+    canon (canon swapped) = canon swapped ∧ canon (canon named) = canon named ∧
+    alreadyCanonical (canon swapped) = true ∧ alreadyCanonical (canon named) = true ∧
+    alreadyCanonical swapped = false := by
+  with_unfolding_all decide
+
+/-- the side condition of `C13_rs_identity` is needed: a multi-segment path is rebuilt as `<T>::A` even by an
+    identity renaming -/
+theorem C13_rs_identity_counterexample :
+    let r : Renaming := ⟨[], [("_ŠČ0", "_ŠČ0")], []⟩
+    let t : T := tyPath [seg "_ŠČ0", seg "Target"]
+    r.isId = true ∧ rsStable r t = false ∧ rsT r t ≠ t := by
+  with_unfolding_all decide
+
+/-- the declared names of the examples are distinct (hypothesis of `C13_indexImpl_inv`) -/
+example : (declaredTy named).Nodup ∧ declaredTy named = ["U", "T"] ∧ (declaredLt named).Nodup ∧ (declaredCo named).Nodup := by
+  with_unfolding_all decide
+end Examples
+
 end DI
